@@ -182,13 +182,21 @@ def gen_condorder(rng, pid):
     lines.append("end")
     return "\n".join(lines)
 
-def gen_soup(rng, pid):
+def gen_soupfix(rng, pid):
+    """the soup with a FIXED shape (4 processes of priorities 0,0,1,2, all started, fixed capacities, no user events), so that
+    the kernel MODEL can be run on the same programs with one set of constants (conformance of the model, KernelConf.tla)"""
+    text = gen_soup(rng, pid, fixed=True)
+    return text
+
+def gen_soup(rng, pid, fixed=False):
     """everything at once: 3-6 processes, long scripts over the whole instruction set, recording switched on for
     some objects at the start, a condition observing a guard, user events that stop / interrupt / signal"""
     np_ = rng.randint(3, 6)
     caps = dict(res=rng.randint(1, 2), pool=rng.randint(1, 3), buf=rng.choice([1, 2, 3]), oq=rng.choice([1, 2, -1]), pq=rng.choice([1, 2, -1]))
     bufunit = 62 if rng.random() < 0.2 else 0
     if bufunit: caps["buf"] = rng.choice([2, 3])
+    if fixed:
+        np_, caps, bufunit = 4, dict(res=1, pool=2, buf=2, oq=1, pq=1), 0
     lines = ["prog %d" % pid, "cap res=%d pool=%d buf=%d oq=%d pq=%d bufunit=%d" % (caps["res"], caps["pool"], caps["buf"], caps["oq"], caps["pq"], bufunit)]
     allops = ["hold"] * 6 + ["tadd"] * 3 + ["tcancel", "tclear", "wproc", "wproc", "wevent", "intr", "intr", "stop", "exit", "yield", "resume", "prio", "prio", "start",
               "acq", "acq", "acq", "rel", "rel", "pre", "pacq", "pacq", "prel", "prel", "ppre", "bput", "bput", "bget", "bget", "qput", "qget", "pqput", "pqget",
@@ -205,8 +213,10 @@ def gen_soup(rng, pid):
             # pair an acquisition with a later release most of the time
             if op in ("acq", "pre") and rng.random() < 0.7: code += ["hold %d" % rng.choice([0, 1, 2]), "rel " + ins.split()[1]]
             if op in ("pacq", "ppre") and rng.random() < 0.7: code += ["hold %d" % rng.choice([0, 1]), "prel " + ins.split()[1]]
-        lines.append("proc %d %d %d : %s" % (p, rng.choice([0, 0, 1, 2, 3]), 1 if (p == 1 or rng.random() < 0.85) else 0, " ; ".join(code[:12])))
-    if rng.random() < 0.7:
+        pr_, au_ = rng.choice([0, 0, 1, 2, 3]), (1 if (p == 1 or rng.random() < 0.85) else 0)
+        if fixed: pr_, au_ = [0, 0, 1, 2][p - 1], 1
+        lines.append("proc %d %d %d : %s" % (p, pr_, au_, " ; ".join(code[:12])))
+    if not fixed and rng.random() < 0.7:
         q = rng.randint(1, np_)
         act = rng.choice(["nop", "intr %d -2 0" % q, "intr %d 9 5" % q, "stop %d 5" % q, "csig", "setflag 0 1", "setflag 1 1", "prio %d 3" % q, "start %d" % q])
         lines.append("uev 1 %d %d : %s" % (rng.choice([0, 1, 2, 3]), rng.choice([0, 0, 1, 5]), act))
@@ -240,6 +250,11 @@ def main():
         rng = random.Random(seed * 15485863 + 11)
         for i in range(count):
             print(gen_condorder(rng, i + 1))
+        return
+    if profile == "soupfix":
+        rng = random.Random(seed * 49979687 + 5)
+        for i in range(count):
+            print(gen_soupfix(rng, i + 1))
         return
     if profile == "soup":
         rng = random.Random(seed * 32452843 + 3)
